@@ -64,7 +64,15 @@ def main() -> None:
                               "differential correspondence (model evaluated inside Coq with vm_compute vs real pynenc objects)",
         }],
         "checks": checks,
-        "notes": "Trusted base and per-property modelling boundaries: DESIGN.md §8 and each evidence file's trusted_base. "
+        "notes": "coqchk -o over all 107 compiled modules of the development (2026-09-26, exit 0; full summary in coqchk_axioms.txt): no type-in-type, "
+                 "no unsafe fixpoints, no assumed positivity; axioms in the closure of the loaded libraries: "
+                 "Coq.Logic.FunctionalExtensionality.functional_extensionality_dep, Coq.Logic.Classical_Prop.classic, "
+                 "Coq.Reals.ClassicalDedekindReals.sig_forall_dec, Coq.Reals.ClassicalDedekindReals.sig_not_dec (all reached only through "
+                 "Flocq / the standard library's reals in C12's binary64 lemmas) plus the kernel's primitive int63 / float operations "
+                 "and their specification axioms in Coq.Floats.FloatAxioms / Coq.Numbers.Cyclic.Int63.Uint63 (C12's bit-exact float model); "
+                 "the development itself declares none (setup.sh greps for Axiom/Parameter/Conjecture/Admitted/admit and unchecked flags). "
+                 "Every other property's theorems print `Closed under the global context`. "
+                 "Trusted base and per-property modelling boundaries: DESIGN.md §8 and each evidence file's trusted_base. "
                  "Known findings: known_findings.txt.",
         "not_applicable": [{"property_id": p, "reason": NOT_YET} for p in ALL if p not in CHECKS],
     }
